@@ -163,6 +163,8 @@ func (x *fx) restart() {
 	x.f = f
 	r := x.now()
 	x.gt.reloads = append(x.gt.reloads, r0, r)
+	x.gt.restarts = append(x.gt.restarts, r0, r)
+	x.gt.procStarts = append(x.gt.procStarts, r)
 	// the provider is in-memory: the new process knows no alert until it is posted again
 	for _, a := range x.gt.alerts {
 		a.posts = append(a.posts, gtPost{at: r, resolve: true})
@@ -213,6 +215,8 @@ func (s *fScenario) run(t *testing.T, h []int) (res seqx.Result) {
 				}
 			}
 		}()
+		x.gt.alertGC = s.fo.AlertGC
+		x.gt.procStarts = []time.Duration{x.now()}
 		f, err := newFApp(dir, s.yaml, env, s.fo)
 		if err != nil {
 			panic(err)
@@ -392,7 +396,7 @@ func TestVerifC05App(t *testing.T) {
 			{"fire B (same group, end+1h)", func(x *fx) bool { x.fire("B", "1", time.Hour); return true }},
 			{"webhook: hangs 8s", func(x *fx) bool { x.setMode("r1/webhook/0", mHang); return true }},
 			{"webhook: recoverable errors", func(x *fx) bool { x.setMode("r1/webhook/0", mRecoverable); return true }},
-			{"webhook: ok", func(x *fx) bool { x.setMode("r1/webhook/0", mOK); return true }},
+			{"reload", func(x *fx) bool { x.reload(); return true }},
 			{"resolve A, webhook hangs, re-fire A 3s into the in-flight delivery", func(x *fx) bool {
 				if _, ok := x.gt.alerts["A"]; !ok {
 					return false
